@@ -86,11 +86,17 @@ func init() {
 			}
 			kinds := []string{"[a]", "[a,b]", "(a,b)", "[a,b)", "(a,b]", "[a,)", "(a,)", "(,b]", "(,b)", "a"}
 			for _, eco := range []string{"nuget", "maven"} {
-				bs := []string{"{d}.{d}", "{d}.{d}.{d}"}
+				bs := []string{"{d}.{d}", "{d}.{d}.{d}", "{d}.{d}.{D}{d}{d}{d}{d}{d}"}
 				for _, k := range kinds {
 					for _, a := range bs {
 						for _, b := range bs {
-							for _, p := range c05Probes(eco, tier) {
+							probes := c05Probes(eco, tier)
+							// a six-digit component (beyond 16 bits) in the probe, and once in a bound
+							probes = append(probes, "{d}.{d}.{D}{d}{d}{d}{d}{d}")
+							if a == bs[1] && b == bs[1] {
+								probes = append(probes, "{d}.{D}{d}{d}{d}{d}{d}.{d}")
+							}
+							for _, p := range probes {
 								out = append(out, &Config{ID: fmt.Sprintf("C05/%s/bracket/%s/%s|%s/%s", eco, k, a, b, p), Pkg: zzhPkg, Func: "C05Bracket",
 									Args: []ArgSpec{ArgStr(eco), ArgStr(k), ArgTmpl(a), ArgTmpl(b), ArgTmpl(p)}})
 							}
@@ -113,7 +119,7 @@ func init() {
 			return out
 		},
 		Bounds: func(tier string) string {
-			return "constructs per DESIGN B.4 (16 shorthand constructs, 10 bracket forms x nuget/maven, hyphen ranges x npm/composer, pypi !=X.Y.*); base arity 1-3, digit runs of length 1 (thorough: also 2), leading zero components pinned (0.x, 0.0.x), optional pre-release base; probes from 4 (quick) / 6 (thorough) templates per ecosystem; pre-releases of exactly the upper bound are not decided where the documentation gives a plain '<' bound (cargo, composer, conan, gem, hex); lower pre-release sliver of npm x-ranges unclaimed; composer probes stable only; pypi probes final/post only"
+			return "constructs per DESIGN B.4 (16 shorthand constructs, 10 bracket forms x nuget/maven, hyphen ranges x npm/composer, pypi !=X.Y.*); base arity 1-3, digit runs of length 1 (thorough: also 2), bracket bounds and probes also with a six-digit component, leading zero components pinned (0.x, 0.0.x), optional pre-release base; probes from 4 (quick) / 6 (thorough) templates per ecosystem; pre-releases of exactly the upper bound are not decided where the documentation gives a plain '<' bound (cargo, composer, conan, gem, hex); lower pre-release sliver of npm x-ranges unclaimed; composer probes stable only; pypi probes final/post only"
 		},
 		Assume: []string{"documented intervals are the spec-side table c05Spec in harness/pkg/zzh/c05.go (sources cited there)"},
 	})
